@@ -700,6 +700,27 @@ def _code_names_and_constants(code) -> Tuple[List[str], List[str]]:
     return sorted({plain(n) for n in names}), sorted(constants)
 
 
+def _code_instructions(code, top: bool = True) -> Optional[List[Any]]:
+    """The instructions of a code object and of the code objects nested in it (byte code along
+    with the constants and names it indexes, in order) - but only when they do not depend on
+    where the code was compiled (no variables of an enclosing function, no class-private
+    names). Otherwise `None`."""
+    if top and (
+        len(code.co_freevars) > 0
+        or any(n.startswith("__") and not n.endswith("__") for n in code.co_names)
+    ):
+        return None
+    result: List[Any] = [
+        code.co_code,
+        code.co_names,
+        [repr(c) for c in code.co_consts if not hasattr(c, "co_code")],
+    ]
+    for c in code.co_consts:
+        if hasattr(c, "co_code"):
+            result.append(_code_instructions(c, False))
+    return result
+
+
 def _lambda_can_be(lda: ast.Lambda, ast_source: Callable) -> bool:
     """Could the lambda found in the source be the callable we were given? They must at least
     refer to the same names and use the same constants."""
@@ -715,7 +736,10 @@ def _lambda_can_be(lda: ast.Lambda, ast_source: Callable) -> bool:
     found = [c for c in module_code.co_consts if hasattr(c, "co_code")]
     if len(found) != 1:
         return True
-    return _code_names_and_constants(found[0]) == _code_names_and_constants(code)
+    if _code_names_and_constants(found[0]) != _code_names_and_constants(code):
+        return False
+    i_found, i_code = _code_instructions(found[0]), _code_instructions(code)
+    return i_found is None or i_code is None or i_found == i_code
 
 
 def _parse_source_for_lambda(
